@@ -166,3 +166,27 @@ Definition gives (a : astore) (o : op) : option (N * aopt) :=
       match src_state a j with Some x => Some (i, x) | None => None end
   | _ => None
   end.
+
+(* event counts on one wrapper slot *)
+Definition is_ctor (k : ekind) : bool := match k with KDefault | KCtor => true | _ => false end.
+Definition is_dtor (k : ekind) : bool := match k with KDtor => true | _ => false end.
+Definition count_kind (p : ekind -> bool) (w : N) (l : list ev) : nat := length (filter p (proj w l)).
+
+(* the Any wrappers an operation may change *)
+Definition awrites (o : aop) : list N :=
+  match o with
+  | ACtorDefault i | ACtorValue i _ _ | ACtorCopy i _ | ADtor i | AAssignValue i _ _ | AAssignCopy i _
+  | ASet i _ _ => [i]
+  | _ => []
+  end.
+(* what an operation gives its receiver *)
+Definition agives (w : aworld) (o : aop) : option (N * aany) :=
+  match o with
+  | ACtorDefault i => Some (i, None)
+  | ACtorValue i t v | AAssignValue i t v => Some (i, Some (t, v))
+  | ACtorCopy i j | AAssignCopy i j =>
+      match a_store w j with Some y => Some (i, abs_any y) | None => None end
+  | _ => None
+  end.
+Definition get_spec (x : aany) (t : N) : aout :=
+  match x with Some (t', v) => if N.eqb t' t then AVal v else AThrow | None => AThrow end.
